@@ -158,6 +158,11 @@ func verifyExtraData(block *types.Block) error {
 
 // verifyMiner verify the miner slot of deputy node
 func verifyMiner(header *types.Header, parent *types.Header, mineTimeout uint64, dm *deputynode.Manager) error {
+	if header.Time < parent.Time {
+		// GetCorrectMiner panics on times that cannot be milliseconds; a block older than its parent is invalid anyway
+		log.Error("Consensus verify fail: block is older than its parent", "time", header.Time, "parent.Time", parent.Time)
+		return ErrVerifyHeaderFailed
+	}
 	expectedMiner, err := GetCorrectMiner(parent, int64(header.Time)*1000, int64(mineTimeout), dm)
 	if err != nil {
 		log.Error("Consensus verify fail: can't find correct miner", "block.Height", header.Height, "parent.MinerAddress", parent.MinerAddress, "block.MinerAddress", header.MinerAddress, "err", err)
